@@ -1001,6 +1001,71 @@ func runSeededClockScenarios(rng *rand.Rand, n int, st *c06Stats, fail func(prop
 	}
 }
 
+// Logs re-opened from the store keep the access controller they are given (C06): each loader is handed a
+// controller that refuses one writer; an append by that writer and a merge bringing one of its entries must
+// both be refused, exactly as on a log created by NewLog with that controller.
+func runReloadedACScenarios(rng *rand.Rand, n int, st *c06Stats, fail func(prop, mon, key, detail string, c interface{})) {
+	ctx := context.Background()
+	for it := 0; it < n; it++ {
+		w := newWorld()
+		writer, _ := ipfslog.NewLog(w.api, w.idents["A"], &ipfslog.LogOptions{ID: "L"})
+		for i := 0; i < 2+rng.Intn(3); i++ {
+			if _, err := writer.Append(ctx, []byte(fmt.Sprintf("a%d", i+1)), nil); err != nil {
+				panic(err)
+			}
+		}
+		mh, err := writer.ToMultihash(ctx)
+		if err != nil {
+			panic(err)
+		}
+		// a replica in which the refused writer B has appended on top
+		other, _ := ipfslog.NewLog(w.api, w.idents["B"], &ipfslog.LogOptions{ID: "L"})
+		if _, err := other.Join(writer, -1); err != nil {
+			panic(err)
+		}
+		if _, err := other.Append(ctx, []byte("by-B"), nil); err != nil {
+			panic(err)
+		}
+		names := []string{"NewLog{Entries}", "NewFromMultihash", "NewFromEntryHash", "NewFromJSON", "NewFromEntry"}
+		for how, name := range names {
+			ac := &denyAC{denied: map[string]bool{string(w.idents["B"].PublicKey): true}}
+			opts := &ipfslog.LogOptions{ID: "L", AccessController: ac}
+			open := func(id string) (*ipfslog.IPFSLog, error) {
+				switch how {
+				case 0:
+					o := *opts
+					o.Entries = writer.GetEntries()
+					return ipfslog.NewLog(w.api, w.idents[id], &o)
+				case 1:
+					return ipfslog.NewFromMultihash(ctx, w.api, w.idents[id], mh, opts, &ipfslog.FetchOptions{})
+				case 2:
+					return ipfslog.NewFromEntryHash(ctx, w.api, w.idents[id], writer.Heads().Slice()[0].GetHash(), opts, &ipfslog.FetchOptions{})
+				case 3:
+					return ipfslog.NewFromJSON(ctx, w.api, w.idents[id], writer.ToJSONLog(), opts, &entry.FetchOptions{})
+				}
+				return ipfslog.NewFromEntry(ctx, w.api, w.idents[id], writer.Heads().Slice(), opts, &entry.FetchOptions{})
+			}
+			st.aliasRuns++
+			info := map[string]interface{}{"scenario": "a log re-opened with an access controller that refuses writer B", "opened_by": name, "seed_iteration": it}
+			if l, err := open("C"); err != nil {
+				fail("C06", "reload-succeeds", "C06:reload-failed", err.Error(), info)
+			} else {
+				before := l.Len()
+				if _, err := l.Join(other, -1); err == nil {
+					fail("C06", "reloaded-log-keeps-controller", "C06:reloaded-log-admits-denied-entry", fmt.Sprintf("the merge of a replica holding an entry of the refused writer succeeded (entries %d -> %d)", before, l.Len()), info)
+				} else if l.Len() != before {
+					fail("C06", "failed-join-unchanged", "C06:failed-join-changed-log", "the refused merge changed the log", info)
+				}
+			}
+			if l, err := open("B"); err == nil {
+				if _, err := l.Append(ctx, []byte("denied"), nil); err == nil {
+					fail("C06", "reloaded-log-keeps-controller", "C06:reloaded-log-admits-denied-entry", "an append by the refused writer succeeded on the re-opened log", info)
+				}
+			}
+		}
+	}
+}
+
 // Logs opened with explicit heads (C02): NewLog{Entries, Heads}, and the loaders, which always pass
 // the heads they found.  Such a log must know which of its entries are referenced just as a log
 // built by appends does: merging a replica that is several entries behind must leave the heads at
@@ -1033,10 +1098,18 @@ func runOpenedJoinScenarios(rng *rand.Rand, n int, st *c06Stats, fail func(prop,
 		if err != nil {
 			panic(err)
 		}
-		for how := 0; how < 4; how++ {
+		for how := 0; how < 5; how++ {
 			var opened *ipfslog.IPFSLog
 			var err error
+			if how == 4 && diverged {
+				continue // the stale replica's head is then not an ancestor of the writer's
+			}
 			switch how {
+			case 4:
+				// heads announced by two replicas, one of which is behind the other, handed over as they came
+				jl := writer.ToJSONLog()
+				jl.Heads = append(append([]cid.Cid{}, jl.Heads...), stale.ToJSONLog().Heads...)
+				opened, err = ipfslog.NewFromJSON(ctx, w.api, w.idents["C"], jl, &ipfslog.LogOptions{ID: "L"}, &entry.FetchOptions{})
 			case 0:
 				opened, err = ipfslog.NewLog(w.api, w.idents["C"], &ipfslog.LogOptions{ID: "L", Entries: writer.GetEntries(), Heads: writer.Heads().Slice()})
 			case 1:
@@ -1051,7 +1124,11 @@ func runOpenedJoinScenarios(rng *rand.Rand, n int, st *c06Stats, fail func(prop,
 			}
 			st.aliasRuns++
 			info := map[string]interface{}{"scenario": "a log opened with its heads given merges a replica that is behind", "entries": k, "stale_replica_stops_after": cut + 1,
-				"stale_replica_diverged": diverged, "opened_by": []string{"NewLog{Entries,Heads}", "NewLog{Entries}", "NewFromMultihash", "NewFromJSON"}[how], "seed_iteration": it}
+				"stale_replica_diverged": diverged, "opened_by": []string{"NewLog{Entries,Heads}", "NewLog{Entries}", "NewFromMultihash", "NewFromJSON", "NewFromJSON with the heads of both replicas"}[how], "seed_iteration": it}
+			// right after opening: the heads are the entries nothing in the log names
+			if want, got := unreferenced(opened.GetEntries().Slice()), sortedCopy(hashesOf(opened.Heads().Slice())); !eqStrings(got, want) {
+				fail("C02", "heads-exact", "C02:heads-not-unreferenced", fmt.Sprintf("right after opening the heads are %v, the unreferenced entries are %v", got, want), info)
+			}
 			if _, err := opened.Join(stale, -1); err != nil {
 				fail("C01", "merge-succeeds", "C01:merge-failed", err.Error(), info)
 				continue
